@@ -1,5 +1,139 @@
 import MM.Model.C26
+import MM.Lemmas.C27
 
 namespace MM.C26
+open MM MM.C27
 
+theorem splitOn_ne_nil (sep : UInt8) (l : Bytes) : splitOn sep l ≠ [] := by
+  cases l with
+  | nil => simp [splitOn]
+  | cons c cs =>
+    unfold splitOn
+    split
+    · simp
+    · split <;> simp
+
+/-- splitting distributes over a separator in the middle -/
+theorem splitOn_append (sep : UInt8) (a b : Bytes) :
+    splitOn sep (a ++ sep :: b) = splitOn sep a ++ splitOn sep b := by
+  induction a with
+  | nil => simp [splitOn]
+  | cons c cs ih =>
+    by_cases hc : c = sep
+    · simp only [List.cons_append, splitOn, hc, if_true, ih]
+    · simp only [List.cons_append, splitOn, hc, if_false, ih]
+      cases hs : splitOn sep cs with
+      | nil => exact absurd hs (splitOn_ne_nil sep cs)
+      | cons s ss => simp
+
+/-- `isPathUnderPrefix` is component-wise: the components of the (clean) prefix are a prefix of the
+    components of the (clean) path — "/var/wwwevil" is not under "/var/www". -/
+theorem underPrefix_componentwise (nfc : Bytes → Bytes) (path pre : Bytes)
+    (h : underPrefix nfc path pre = true) (hns : hasSuffix [SL] (normalize nfc pre) = false) :
+    splitOn SL (normalize nfc pre) <+: splitOn SL (normalize nfc path) := by
+  unfold underPrefix at h
+  simp only [hns, Bool.false_eq_true, if_false, Bool.or_eq_true, beq_iff_eq] at h
+  rcases h with h | h
+  · rw [h]; exact List.prefix_refl _
+  · obtain ⟨rest, hr⟩ := List.isPrefixOf_iff_prefix.mp h
+    rw [← hr]
+    have : normalize nfc pre ++ [SL] ++ rest = normalize nfc pre ++ SL :: rest := by simp
+    rw [this, splitOn_append]
+    exact List.prefix_append _ _
+
+/-- `k`-th ancestor directory -/
+def ancestor : Nat → Bytes → Bytes
+  | 0, d => d
+  | k + 1, d => ancestor k (dirOf d)
+
+/-- the parent walk finds a match only at an ancestor (or the path itself) -/
+theorem parentWalk_spec (pat : Bytes) : ∀ (fuel : Nat) (dir : Bytes), parentWalk pat fuel dir = true →
+    ∃ k, matchOK pat (ancestor k dir) = true := by
+  intro fuel
+  induction fuel with
+  | zero => intro dir h; simp [parentWalk] at h
+  | succ f ih =>
+    intro dir h
+    unfold parentWalk at h
+    split at h
+    · cases h
+    · rcases Bool.or_eq_true _ _ |>.mp h with h | h
+      · exact ⟨0, h⟩
+      · obtain ⟨k, hk⟩ := ih _ h
+        exact ⟨k + 1, hk⟩
+
+/-! ### where an operation can touch the filesystem -/
+
+theorem opDownload_touched {nfc : Bytes → Bytes} {fu : Nat} {c : Cfg} {fs : FS} {path : Bytes} {q : Path}
+    (hq : q ∈ (opDownload nfc fu c fs path).touched) :
+    ∃ k, stat fs fu (compsOf (clean path)) = .found q k := by
+  unfold opDownload at hq
+  dsimp only at hq
+  repeat' split at hq
+  all_goals first
+    | (simp only [failR, List.not_mem_nil] at hq; done)
+    | (simp only [List.mem_singleton] at hq; subst hq; exact ⟨_, by assumption⟩)
+
+theorem opList_touched {fu : Nat} {fs : FS} {path : Bytes} {q : Path}
+    (hq : q ∈ (opList fu fs path).touched) :
+    ∃ k, stat fs fu (compsOf (clean path)) = .found q k := by
+  unfold opList at hq
+  repeat' split at hq
+  all_goals first
+    | (simp only [failR, List.not_mem_nil] at hq; done)
+    | (simp only [List.mem_singleton] at hq; subst hq; exact ⟨_, by assumption⟩)
+
+theorem opStat_touched {fu : Nat} {fs : FS} {path : Bytes} {q : Path}
+    (hq : q ∈ (opStat fu fs path).touched) :
+    (∃ k, stat fs fu (compsOf (clean path)) = .found q k) ∨ (∃ k, lstat fs fu (compsOf (clean path)) = .found q k) := by
+  unfold opStat at hq
+  dsimp only at hq
+  repeat' split at hq
+  all_goals first
+    | (simp only [failR, List.not_mem_nil] at hq; done)
+    | (simp only [List.mem_singleton] at hq; subst hq; exact Or.inr ⟨_, by assumption⟩)
+    | (simp only [List.mem_cons, List.mem_nil_iff, or_false] at hq
+       rcases hq with rfl | rfl
+       · exact Or.inr ⟨_, by assumption⟩
+       · exact Or.inl ⟨_, by assumption⟩)
+
+theorem opChmod_touched {fu : Nat} {fs : FS} {path : Bytes} {q : Path}
+    (hq : q ∈ (opChmod fu fs path).touched) :
+    ∃ q0 k, stat fs fu (compsOf (clean path)) = .found q0 k ∧ q ∈ aliases fs q0 := by
+  unfold opChmod at hq
+  repeat' split at hq
+  all_goals first
+    | (simp only [failR, List.not_mem_nil] at hq; done)
+    | exact ⟨_, _, by assumption, hq⟩
+
+theorem opDelete_touched {fu : Nat} {fs : FS} {path : Bytes} {q q0 : Path} {k : Kind}
+    (hl : lstat fs fu (compsOf (clean path)) = .found q0 k) (hk : ∀ t, k ≠ .sym t)
+    (hq : q ∈ (opDelete fu fs path false).touched) : q = q0 := by
+  unfold opDelete at hq
+  dsimp only at hq
+  rw [hl] at hq
+  cases k with
+  | sym t => exact absurd rfl (hk t)
+  | dir =>
+    dsimp only at hq
+    repeat' split at hq
+    all_goals first
+      | (simp only [List.mem_singleton, List.mem_append, or_self] at hq; exact hq)
+      | (simp only [List.not_mem_nil] at hq; done)
+      | (rename_i h2; simp at h2; done)
+  | file i =>
+    dsimp only at hq
+    repeat' split at hq
+    all_goals first
+      | (simp only [List.mem_singleton, List.mem_append, List.not_mem_nil, false_or] at hq; exact hq)
+      | (simp only [List.not_mem_nil] at hq; done)
+      | (rename_i h2; simp at h2; done)
+theorem opDelete_notfound {fu : Nat} {fs : FS} {path : Bytes} {q : Path}
+    (hl : ∀ q0 k, lstat fs fu (compsOf (clean path)) ≠ .found q0 k)
+    (hq : q ∈ (opDelete fu fs path false).touched) : False := by
+  unfold opDelete at hq
+  dsimp only at hq
+  split at hq
+  · exact hl _ _ (by assumption)
+  · simp [failR] at hq
 end MM.C26
